@@ -40,6 +40,11 @@ IS_LOOP = ("truth", "isinstance(P:event,LoopEvent)", "1")
 _UNDECIDED = ("any", (("truth", "P:self.loop_kill_paths[USub(1)]", "1"),
                       ("truth", "P:self.will_merge", "0")), "1")
 _HAS_PATH = ("cmp", "P:self.current_path", "Is", "None", "0")
+_MKEV = "P:puml_graph.create_event_node(P:event_node.event_type," \
+        "P:event_node.get_puml_event_types(),parent_graph_node=" \
+        "P:event_node.uid)"
+_LNODE = "phi(P:previous_node_class|P:previous_node_class.outgoing_logic[0])"
+_PAIR = f"P:puml_graph.create_operator_node_pair({_LNODE}.get_operator_type())"
 _NO_LONELY = ("cmp", "P:logic_block_holder.lonely_merge_index", "Is", "None",
               "1")
 _LB_UNDECIDED = ("any", (
@@ -161,6 +166,28 @@ TABLE: dict[str, list[tuple]] = {
          [_UNDECIDED, _HAS_PATH,
           ("truth", "P:self.loop_kill_paths[USub(1)]", "0"),
           ("truth", "any(P:self.loop_kill_paths)", "1")], [], ""),
+    ],
+    # ---- the two elementary steps of the walk
+    "update_puml_graph_with_event_node": [
+        ("an event node of the model becomes one diagram node with its own "
+         "type, its flags, and a reference back to the model node", "ret",
+         "", "", (f"({_MKEV},P:event_node)",),
+         [("cmp", "P:event_node.event_type", "Is", "None", "0")], [], ""),
+        ("connected from the node the walk came from", "call",
+         "add_puml_edge", "P:puml_graph", ("P:previous_puml_node", _MKEV),
+         [("cmp", "P:event_node.event_type", "Is", "None", "0")], [], ""),
+    ],
+    "handle_logic_node_cases": [
+        ("a logic node opens a block: an operator pair of the node's own "
+         "operator type, remembered with the logic node on the block stack",
+         "call", "append", "P:logic_list",
+         (f"LogicBlockHolder({_PAIR}[0],{_PAIR}[1],{_LNODE})",), [], [], ""),
+        ("the block's start is connected from the node the walk came from",
+         "call", "add_puml_edge", "P:puml_graph",
+         ("P:previous_puml_node", f"{_PAIR}[0]"), [], [], ""),
+        ("and the walk continues with the block's first path", "ret", "", "",
+         ("handle_logic_list_next_path(P:puml_graph,P:logic_list,"
+          "P:previous_node_class)",), [], [], ""),
     ],
     # ---- is the node the walk arrived at a merge node of the open block?
     "check_is_merge_node_for_logic_block": [
